@@ -57,6 +57,19 @@ Proof.
       * exact IH.
 Qed.
 
+Lemma mem_filter_prefix p l : forall n,
+  mem n (filter (fun k => negb (is_prefix p k)) l) = if is_prefix p n then false else mem n l.
+Proof.
+  intros n. unfold mem. induction l as [|k l IH]; simpl.
+  - destruct (is_prefix p n); reflexivity.
+  - destruct (is_prefix p k) eqn:E; simpl.
+    + rewrite IH. destruct (beq n k) eqn:E2; [|reflexivity].
+      apply beq_eq in E2. subst k. rewrite E. reflexivity.
+    + destruct (beq n k) eqn:E2.
+      * apply beq_eq in E2. subst k. rewrite E. reflexivity.
+      * exact IH.
+Qed.
+
 (* ---- refinement: one concrete step = the store step on the classified operation ---- *)
 Lemma header_get_abs st n : header_get st n = first_val (abs st) (canon n).
 Proof. reflexivity. Qed.
@@ -66,7 +79,7 @@ Proof. split; reflexivity. Qed.
 
 Ltac aeq_tac :=
   split; intros ?n; cbn [a_vals a_asg abs hmap akeys fst snd];
-  rewrite ?map_get_set, ?map_get_del_upd, ?mem_set_add, ?mem_set_del, ?map_get_filter_prefix; reflexivity.
+  rewrite ?map_get_set, ?map_get_del_upd, ?mem_set_add, ?mem_set_del, ?map_get_filter_prefix, ?mem_filter_prefix; reflexivity.
 
 Theorem refine_step kd st o :
   snd (step kd st o) = snd (sstep (abs st) (classify kd o)) /\
@@ -131,7 +144,7 @@ Proof.
   - split; [reflexivity|]. split; intros n; simpl; unfold upd; destruct (beq cn n); auto.
   - rewrite (first_val_ext a b cn H). split; [reflexivity|]. split; intros n; simpl; unfold upd;
       destruct (beq cn n); auto.
-  - split; [reflexivity|]. split; intros n; simpl; [destruct (is_prefix p n); auto | auto].
+  - split; [reflexivity|]. split; intros n; simpl; destruct (is_prefix p n); auto.
   - rewrite Hall. split; [reflexivity|]. split; intros n; simpl; unfold upd; destruct (beq cn n); auto.
   - rewrite Hall. split; [reflexivity|]. destruct (all_vals b cn) as [|l0 ls]; [exact H|].
     destruct (remove_cookie (l0 :: ls) key); split; intros n; simpl; unfold upd; destruct (beq cn n); auto.
